@@ -122,7 +122,7 @@ pub fn run_history(h: &History, which: Oracles, prop: &str) -> Result<RunStats, 
             let l = log.borrow();
             let d = l.delivered - base;
             let blen = reader.buf_len();
-            let check_window = which.window || (which.safety && panicked_before);
+            let check_window = which.window || which.safety;
             if check_window {
                 if m.pos.checked_add(blen).map_or(true, |e| e > d) {
                     bad!(
